@@ -751,4 +751,17 @@ def arguments_untouched(repo: Repo) -> RuleRun:
 
 arguments_untouched.rule_id = "C11.ARGUMENTS-UNTOUCHED"
 
-RULES = [quad_map_rule, chop_coverage, chop_role, radial_convention, arc_rings, chain_source, mirror_pairing, trig_domain, fill_conformal, arc_side, affine_kinds, stack_chain, no_shared_parts, moved_once, transform_routing, axis_terms, mirror_matrix, arguments_untouched]
+def arc_midpoint(repo: Repo) -> RuleRun:
+    """'... outer arcs lie on the intended circle': the side arcs of every revolved shape are angle-and-axis arcs; their written
+    three-point form passes through the exact half-way point of the sector, for either sense of rotation, more than half a turn
+    and exactly half a turn. Same rule as C08.REFLEX-MIDPOINT."""
+    from ..report import rebrand
+    from . import c08
+
+    return rebrand(c08.reflex_midpoint(repo), PROP, "C11.ARC-MIDPOINT")
+
+
+arc_midpoint.rule_id = "C11.ARC-MIDPOINT"
+
+
+RULES = [quad_map_rule, chop_coverage, chop_role, radial_convention, arc_rings, chain_source, mirror_pairing, trig_domain, fill_conformal, arc_side, affine_kinds, stack_chain, no_shared_parts, moved_once, transform_routing, axis_terms, mirror_matrix, arguments_untouched, arc_midpoint]
